@@ -71,7 +71,7 @@ print("RESULT " + json.dumps(out))
 
 def extra(chk, info, res):
     from checks import decisions_common as _dc
-    _dc.tie(chk, ['cover'])
+    _dc.tie(chk, ['cover', 'guards_tank'])
     from checks import guards_common
     guards_common.correspondence(chk, ['tank_is_low', 'tank_is_high', 'pump_stopped_in_standby'])
     """exhaustive differential test of the cover polls: every position 0..100 (x every eco position 0..100)"""
